@@ -35,7 +35,7 @@ import c13
 import c14
 from runner import Case
 
-PROP = "C14serde"
+PROP = "C14"
 TITLE = "Spans delivered through serde's Spanned<T>; Spanned is transparent (serde half of C14)"
 COQ_PROPS = "Props/C14serde.v"
 DRIVER_NAME = "serde"
